@@ -57,11 +57,35 @@ def make_verdict(env, part, cmemo=None, cache=None):
             return "returned %r, expected %r" % (v2, want)
         return None
 
+    def wrong_const(sort):
+        """a constant of another sort: a malformed model, whose evaluation fails part-way"""
+        if sort == INT:
+            return mgr.Real(Fraction(1, 2))
+        if sort == REAL:
+            return mgr.TRUE()
+        if sort == BOOL:
+            return mgr.Int(0)
+        if isinstance(sort, tuple) and sort[0] == "BV":
+            return mgr.BV(0, sort[1] + 1)
+        return mgr.Int(0) if sort != INT else None
+
     def verdict(f):
         sf, ff = compile_term(f, cmemo)
         syms = free_symbols(f)
         names = sorted(syms)
         symn = {n: mgr.get_symbol(n) for n in names}
+        if names and not f.is_symbol():
+            # histories: an evaluation that fails part-way (malformed model) precedes the real ones; the
+            # values below must not depend on it
+            first = next(iter(interps(syms, dom)), None)
+            if first is not None:
+                for n0 in ((names[0], names[-1]) if not part.get("quick_prelude") else (names[-1],)):
+                    bad = {symn[n]: const(syms[n], first[n]) for n in names}
+                    bad[symn[n0]] = wrong_const(syms[n0])
+                    try:
+                        EagerModel(bad, env).get_value(f)
+                    except Exception:
+                        pass
         for I in interps(syms, dom):
             try:
                 want = ff(I)
@@ -155,6 +179,7 @@ def _completions(syms, gone, dom):
 
 
 def make(env, profile, res, part):
+    part = dict(part, quick_prelude=part.get("quick_prelude", True))
     verdict = make_verdict(env, part)
     simp = env.simplifier
 
